@@ -417,7 +417,8 @@ def clause_b(ctx: Context, idx, reg) -> None:
         if isinstance(n_, ast.For) and "self.instructions" in norm(n_.iter) and isinstance(n_.target, ast.Name):
             loop_vars.add(n_.target.id)
         if isinstance(n_, ast.Assign) and isinstance(n_.value, ast.Call) and isinstance(n_.value.func, ast.Attribute) \
-                and n_.value.func.attr in ("copy",) and isinstance(n_.targets[0], ast.Name):
+                and n_.value.func.attr in ("copy",) and isinstance(n_.targets[0], ast.Name) and dotted(n_.value.func) != "copy.copy":
+            # (copy.copy(x) is the shallow copy of the standard library: the params dict and the matrices in it stay shared)
             copies.add(n_.targets[0].id)
         if isinstance(n_, ast.Assign) and isinstance(n_.value, ast.Call) and dotted(n_.value.func) in ("copy.deepcopy", "deepcopy") \
                 and isinstance(n_.targets[0], ast.Name):
@@ -430,7 +431,7 @@ def clause_b(ctx: Context, idx, reg) -> None:
             recv = c.func.value
             applied += 1
             is_copy = (isinstance(recv, ast.Name) and recv.id in copies) or (
-                isinstance(recv, ast.Call) and isinstance(recv.func, ast.Attribute) and recv.func.attr == "copy")
+                isinstance(recv, ast.Call) and isinstance(recv.func, ast.Attribute) and recv.func.attr == "copy" and dotted(recv.func) != "copy.copy")
             if not is_copy:
                 bad.append(c)
     key = f"{ap.qualname}|mutator-applied-to-copy"
@@ -439,8 +440,9 @@ def clause_b(ctx: Context, idx, reg) -> None:
     ctx.obligation("C12b", key, not bad, f"{ctx.relpath(ap.file)}:{ap.line}")
     for c in bad:
         ctx.violation("C12b", key, ap.file, c.lineno,
-                      "registering a program inside another applies on_modes to the inner program's own instruction objects "
-                      "(their modes are overwritten; the inner program is not reusable)", norm(c)[:80])
+                      "registering a program inside another applies on_modes to the inner program's own instruction objects or to a shallow "
+                      "copy of them (their modes are overwritten / their parameter dictionaries stay shared; the inner program is not reusable)",
+                      norm(c)[:80])
 
 
 def clause_b_copies(ctx: Context, idx) -> None:
